@@ -23,12 +23,16 @@ from mpyc import mpctools  # noqa: E402
 sys.argv = _argv
 
 LEVEL = 'proof'
-LEAN_MODULES = ['MpycV.Props.C32']
-LEAN_NAMESPACES = ['MpycV.C32']
+LEAN_MODULES = ['MpycV.Props.C32', 'MpycV.PropsGen.C32Src']
+LEAN_NAMESPACES = ['MpycV.C32', 'MpycV.C32Src']
 REQUIRED_THEOREMS = ['reduce_eq_foldl', 'reduce_initial_eq_foldl', 'reduce_empty_typeError', 'reduce_none_iff',
                      'accumulate_sklansky_eq_scan', 'accumulate_brentkung_eq_scan', 'accumulate_eq_scan',
                      'accumulate_inplace_eq_slices', 'default_method_rule',
-                     'reduce_depth_log', 'sklansky_depth_log', 'brentkung_depth_log']
+                     'reduce_depth_log', 'sklansky_depth_log', 'brentkung_depth_log',
+                     # source tie (PropsGen/C32Src.lean): definitions generated from the current mpctools.py = model
+                     'reduce_src_eq', 'acc_brentkung_src_eq', 'acc_sklansky_src_eq', 'accumulate_src_eq',
+                     'reduce_src_eq_foldl', 'reduce_src_initial_eq_foldl', 'reduce_src_empty_typeError',
+                     'accumulate_src_eq_scan', 'accumulate_src_invalid_method']
 RULE = ('every length n = 0..N (N = 70 quick, 200 thorough) x {no initial, initial} x {reduce, '
         'accumulate Sklansky, accumulate Brent-Kung, accumulate default (PRSS on/off)}; '
         'a case is distinct by (function, n, initial, method, domain); domains: free magma '
@@ -37,11 +41,15 @@ RULE = ('every length n = 0..N (N = 70 quick, 200 thorough) x {no initial, initi
 EXPLANATION = ('all clauses proved for the model (any type, any associative f): results equal the '
                'left fold / list of prefix folds, empty-without-initial is the TypeError branch, '
                'depth <= k = ceil(log2 n) (reduce, Sklansky) and <= max(2k-2, k) (Brent-Kung); the model '
-               'is tied to mpctools.py by comparing exact application trees')
+               'is tied to mpctools.py by comparing exact application trees AND by a source translator: reduce and '
+               'accumulate (both nested acc functions, the method heuristic, the initial value) are translated from the '
+               'current source into Lean (f and the element type are parameters) and proved equal to the model for '
+               'every f (PropsGen/C32Src)')
 ASSUMPTIONS = ['list(x), x.insert(0, initial), slice assignment x[h:j] = generator behave as CPython lists '
                '(modelled by List.take/drop/set; exercised by the correspondence for every length)',
                'f is a pure function (the theorems are about the values f returns)']
-TRUSTED = ['harness/props/c32.py correspondence (free-magma trees) and functools/itertools as oracle']
+TRUSTED = ['harness/props/c32.py correspondence (free-magma trees) and functools/itertools as oracle',
+           'harness/py2lean_tools.py: translation rules Python -> Lean (docstring), hand-written fuel annotations']
 
 _NOVAL = object()
 INIT_LEAF = 1000
@@ -161,11 +169,17 @@ def _check_depth(ctx, fn_name, n, with_init, method, report=True):
     tot = n + (1 if with_init else 0)
     if tot == 0:
         return None
-    d, c = _depth_and_calls(fn_name, n, with_init, method)
     k = _clog2(tot)
     pow2 = tot == 1 << k
     bad = None
-    if fn_name == 'reduce':
+    try:
+        d, c = _depth_and_calls(fn_name, n, with_init, method)
+    except Exception as exc:  # noqa
+        d = c = 0
+        bad = f'raised {type(exc).__name__}'
+    if bad:
+        pass
+    elif fn_name == 'reduce':
         if d > k:
             bad = f'depth {d} > ceil(log2 n) = {k}'
         elif c != tot - 1:
@@ -208,9 +222,9 @@ def _tree_lines(N):
             for no_prss in (False, True):
                 tot = n + (1 if with_init else 0)
                 reqs.append(f'defmeth {1 if no_prss else 0} {tot}')
-                got = _real_accumulate(list(leaves), magma, ini, None, no_prss)
-                bk = _real_accumulate(list(leaves), magma, ini, 'Brent-Kung')
-                sk = _real_accumulate(list(leaves), magma, ini, 'Sklansky')
+                got = _exc_name(lambda: _real_accumulate(list(leaves), magma, ini, None, no_prss))
+                bk = _exc_name(lambda: _real_accumulate(list(leaves), magma, ini, 'Brent-Kung'))
+                sk = _exc_name(lambda: _real_accumulate(list(leaves), magma, ini, 'Sklansky'))
                 # shapes coincide for tiny n; there the rule cannot be observed -> accept the model's answer
                 if bk == sk:
                     impl.append('BK' if (no_prss and tot >= 32) else 'SK')
@@ -234,9 +248,10 @@ def run(ctx):
     if (kind, val) != ('exc', 'ValueError'):
         ctx.violation('accumulate with an invalid method does not raise ValueError',
                       {'kind': 'invalid-method', 'expected': 'ValueError', 'observed': repr((kind, val))})
-    if mpctools.reduce(magma, [], None) is not None or list(mpctools.accumulate([], magma, initial=None)) != [None]:
+    got_none = _exc_name(lambda: (mpctools.reduce(magma, [], None), list(mpctools.accumulate([], magma, initial=None))))
+    if got_none != ('ok', (None, [None])):
         ctx.violation('initial=None is not treated as a provided initial value',
-                      {'kind': 'initial-none', 'expected': 'None / [None]', 'observed': 'other'})
+                      {'kind': 'initial-none', 'expected': 'None / [None]', 'observed': repr(got_none)})
     # oracle on the real code --------------------------------------------------------------------
     rng = ctx.subrng('oracle')
     for n in range(N + 1):
@@ -265,14 +280,98 @@ def run(ctx):
                                                              _NOVAL, 'Brent-Kung')]})
 
 
+# ---------------------------------------------------------------------------------------------
+# source translator tie
+# ---------------------------------------------------------------------------------------------
+import py2lean_tools  # noqa: E402
+
+GEN_FILE = os.path.join(common.LEAN_DIR, 'MpycV', 'Generated', 'MpctoolsSrc.lean')
+MIRROR_FILE = os.path.join(common.LEAN_DIR, 'MpycV', 'Lemmas', 'ToolsSrcMirror.lean')
+
+
+def _translate_current():
+    src = os.path.join(repo_path.REPO, 'mpyc', 'mpctools.py')
+    try:
+        text = open(src).read()
+    except OSError as exc:
+        return py2lean_tools.translate_source('', 'mpyc/mpctools.py')[0], {'*': f'cannot read {src}: {exc}'}
+    return py2lean_tools.translate_source(text)
+
+
+def generate(ctx):
+    """source translator: current mpyc/mpctools.py -> lean/MpycV/Generated/MpctoolsSrc.lean (deterministic)"""
+    text, problems = _translate_current()
+    os.makedirs(os.path.dirname(GEN_FILE), exist_ok=True)
+    old = open(GEN_FILE).read() if os.path.exists(GEN_FILE) else None
+    if old != text:
+        tmp = GEN_FILE + f'.tmp{os.getpid()}'
+        with open(tmp, 'w') as f:
+            f.write(text)
+        os.replace(tmp, GEN_FILE)
+    for fn, msg in problems.items():
+        ctx.note(f'py2lean_tools: {fn} not translated: {msg}')
+    changed = changed_functions(text)
+    if changed:
+        ctx.note('py2lean_tools: translated text differs from the pinned mirror for: ' + ', '.join(changed))
+    ctx.count('py2lean_tools/functions translated', len(py2lean_tools.ORDER) - len([k for k in problems if k != '*']))
+
+
+def _blocks(text):
+    """split a generated file into {definition name: text}; source line numbers in the headers are ignored"""
+    out, cur = {}, None
+    for ln in text.replace('MpycV.MpctoolsMirror', 'MpycV.MpctoolsSrc').split('\n'):
+        if ln.startswith('-- ≙ mpctools.py:'):
+            continue
+        if ln.startswith('def ') or ln.startswith('/-- NOT TRANSLATED'):
+            cur = ln.split()[1] if ln.startswith('def ') else 'untranslated'
+            out[cur] = []
+        if ln.startswith('end MpycV.'):
+            cur = None
+        if cur is not None:
+            out[cur].append(ln)
+    return {k: '\n'.join(v).strip() for k, v in out.items()}
+
+
+def changed_functions(text=None):
+    """top-level functions whose translation differs textually from the mirror the bridge lemmas are proved for"""
+    if text is None:
+        text = _translate_current()[0]
+    try:
+        mirror = _blocks(open(MIRROR_FILE).read())
+    except OSError:
+        return list(py2lean_tools.ORDER)
+    cur = _blocks(text)
+    diff = {k.split('.')[0] for k in set(cur) | set(mirror) if cur.get(k) != mirror.get(k)}
+    return [fn for fn in py2lean_tools.ORDER if fn in diff]
+
+
 def search(ctx):
-    """Larger sweep, called only when proof or correspondence broke."""
+    """Larger sweep, called only when proof or correspondence broke; the functions whose translation changed first."""
     rng = ctx.subrng('search')
-    for n in list(range(0, 400)) + [511, 512, 513, 1000, 1023, 1024, 1025]:
+    changed = changed_functions()
+    combos = [('reduce', None, None), ('accumulate', 'Brent-Kung', None), ('accumulate', 'Sklansky', None),
+              ('accumulate', None, True), ('accumulate', None, False)]
+    if changed:
+        ctx.note('search focused on: ' + ', '.join(changed))
+        combos = [c for c in combos if c[0] in changed] + [c for c in combos if c[0] not in changed]
+    # interface corners first: iterables that are not lists, initial=None, invalid method
+    for n in (0, 1, 2, 5):
+        exp = _exc_name(lambda: functools.reduce(lambda a, b: a + b, [str(i) for i in range(n)]))
+        got = _exc_name(lambda: mpctools.reduce(lambda a, b: a + b, (str(i) for i in range(n))))
+        if exp != got:
+            ctx.violation('reduce on a generator differs from functools.reduce',
+                          {'kind': 'generator', 'n': n, 'expected': repr(exp), 'observed': repr(got)})
+            return
+        exp = _exc_name(lambda: list(itertools.accumulate((str(i) for i in range(n)), lambda a, b: a + b)))
+        got = _exc_name(lambda: list(mpctools.accumulate((str(i) for i in range(n)), lambda a, b: a + b)))
+        if exp != got:
+            ctx.violation('accumulate on a generator differs from itertools.accumulate',
+                          {'kind': 'generator-acc', 'n': n, 'expected': repr(exp), 'observed': repr(got)})
+            return
+    for n in list(range(0, 130)) + [255, 256, 257, 511, 512, 513]:
         for with_init in (False, True):
             for dom in ('tuple', 'mat'):
-                for fn_name, method, no_prss in (('reduce', None, None), ('accumulate', 'Brent-Kung', None),
-                                                 ('accumulate', 'Sklansky', None), ('accumulate', None, True)):
+                for fn_name, method, no_prss in combos:
                     ctx.case(('search', fn_name, n, with_init, method, dom))
                     if _check_one(ctx, fn_name, n, with_init, method, dom, rng, no_prss):
                         return
@@ -308,8 +407,13 @@ def replay(ctx, data):
         k, v = _exc_name(lambda: list(mpctools.accumulate([1, 2], method='Kogge-Stone')))
         return (k, v) == ('exc', 'ValueError'), repr((k, v))
     if kind == 'initial-none':
-        ok = mpctools.reduce(magma, [], None) is None and list(mpctools.accumulate([], magma, initial=None)) == [None]
-        return ok, 'initial=None handling'
+        got = _exc_name(lambda: (mpctools.reduce(magma, [], None), list(mpctools.accumulate([], magma, initial=None))))
+        return got == ('ok', (None, [None])), f'initial=None handling: {got!r}'
+    if kind == 'generator-acc':
+        n = data['n']
+        exp = _exc_name(lambda: list(itertools.accumulate((str(i) for i in range(n)), lambda a, b: a + b)))
+        got = _exc_name(lambda: list(mpctools.accumulate((str(i) for i in range(n)), lambda a, b: a + b)))
+        return exp == got, f'expected {exp} observed {got}'
     if kind == 'generator':
         n = data['n']
         exp = _exc_name(lambda: functools.reduce(lambda a, b: a + b, [str(i) for i in range(n)]))
